@@ -9,18 +9,18 @@ import ChessVerif.Model.Engine
 namespace Chess.Proofs.Search
 open Chess Chess.Engine Chess.MoveGen
 
-/-- the first deepening pass of `search`: depth 0, no previous best move, fresh counters -/
-def firstPass (b : Board) (tf : ThreeFold) (k : Nat) : Pass × St :=
+/-- the first deepening pass of `search pos`: depth 0, no previous best move, fresh counters -/
+def firstPass (pos : Bool) (b : Board) (tf : ThreeFold) (k : Nat) : Pass × St :=
   let pc := b.turn
   let p0 : Pass := ⟨worst pc, none, .min, .max⟩
   let moves := (MoveGen.legals b).setMask (b.raw.color pc.flip)
-  let (p2, moves, st) := rootLoop k b pc 0 tf 5000 moves p0 ⟨0, 0⟩
-  let (p3, _, st) := rootLoop k b pc 0 tf 5000 (moves.setMask BB.full) p2 st
+  let (p2, moves, st) := rootLoop pos k b pc 0 tf 5000 moves p0 ⟨0, 0⟩
+  let (p3, _, st) := rootLoop pos k b pc 0 tf 5000 (moves.setMask BB.full) p2 st
   (p3, st)
 
 /-- the poll that closes the first pass did not report expiry -/
-def firstPassFinished (b : Board) (tf : ThreeFold) (k : Nat) : Bool :=
-  !(poll k (firstPass b tf k).2).1
+def firstPassFinished (pos : Bool) (b : Board) (tf : ThreeFold) (k : Nat) : Bool :=
+  !(poll k (firstPass pos b tf k).2).1
 
 /-- the move delivers checkmate: the successor has no legal move and its side to move is in check -/
 def isMateMove (b : Board) (mv : Move) : Bool :=
